@@ -192,6 +192,26 @@ func (x *Exec) applyContract(st *State, i *ssa.Call, fi *FuncInfo, fs *FuncSpec,
 	}
 	post := x.funcEnvExt(fi, fs, "post", st, old, args, rs)
 	for _, c := range fs.Clauses {
+		if c.Kind == "establishes" && callee.Pkg != nil {
+			// the callee establishes the invariants of the tables it assigns
+			assigned := map[string]bool{}
+			for _, ac := range fs.Clauses {
+				if ac.Kind == "assigns" {
+					for _, it := range strings.Split(ac.Text, ",") {
+						assigned[strings.TrimSpace(it)] = true
+					}
+				}
+			}
+			for _, gi := range x.W.GlobalInvs {
+				if gi.Pkg != fs.Pkg || !assigned[gi.Name] {
+					continue
+				}
+				gev := &Env{W: x.W, st: st, pkg: callee.Pkg, bound: map[string]SVal{}}
+				if t, err := gev.EvalBool(gi.E); err == nil {
+					st.assume(t)
+				}
+			}
+		}
 		if c.Kind == "defines" {
 			// functional consistency: the (single) result is a function of the argument values
 			v, err := post.EvalVal(c.E)
@@ -571,6 +591,11 @@ func (x *Exec) invoke(st *State, i *ssa.Call, args []Value, k func(*State)) {
 
 // specialCall handles externals whose semantics are built in. Returns true if handled.
 func (x *Exec) specialCall(st *State, i *ssa.Call, callee *ssa.Function, args []Value, setResult func(*State, []Value), k func(*State), fr *frame) bool {
+	// initialisers of imported packages: they establish their own packages' tables
+	if callee.Name() == "init" && callee.Signature.Params().Len() == 0 && callee.Pkg != nil && callee != x.top.Fn {
+		k(st)
+		return true
+	}
 	// a function whose real body does nothing (e.g. the release-build stubs of openacid/must)
 	if callee.Signature.Results().Len() == 0 && isTrivialNoop(callee) {
 		k(st)
